@@ -76,6 +76,39 @@ impl<T, U: ArraySize> Default for Array<T, U> {
     fn default() -> (r: Self) ensures r == zero_of::<Array<T, U>>() { unimplemented!() }
 }
 
+// `out.iter_mut().zip(buf)` over two Arrays (the `xor` helpers): Array is a shim type, so the element-wise pairing of the
+// real std::iter::Zip is MODELLED by an inherent method of the shim iterator (assumed): pair i = (element i, element i)
+#[verifier::external_body]
+#[verifier::accept_recursive_types(T)]
+pub struct ArrZip<'a, 'b, T> { it: core::iter::Zip<core::slice::IterMut<'a, T>, core::slice::Iter<'b, T>> }
+pub uninterp spec fn azip_remaining<'a, 'b, T>(it: &ArrZip<'a, 'b, T>) -> Seq<(&'a mut T, &'b T)>;
+impl<'a, 'b, T> vstd::std_specs::iter::IteratorSpecImpl for ArrZip<'a, 'b, T> {
+    open spec fn obeys_prophetic_iter_laws(&self) -> bool { true }
+    open spec fn remaining(&self) -> Seq<(&'a mut T, &'b T)> { azip_remaining(self) }
+    open spec fn will_return_none(&self) -> bool { true }
+    open spec fn decrease(&self) -> Option<nat> { Some(azip_remaining(self).len()) }
+    open spec fn peek(&self, i: int) -> Option<(&'a mut T, &'b T)> {
+        if 0 <= i < azip_remaining(self).len() { Some(azip_remaining(self)[i]) } else { None }
+    }
+}
+impl<'a, 'b, T> Iterator for ArrZip<'a, 'b, T> {
+    type Item = (&'a mut T, &'b T);
+    #[verifier::external_body]
+    fn next(&mut self) -> (r: Option<(&'a mut T, &'b T)>) { unimplemented!() }
+}
+impl<'a, T> ArrIterMut<'a, T> {
+    #[verifier::external_body]
+    pub fn zip<'b, U: ArraySize>(self, other: &'b Array<T, U>) -> (r: ArrZip<'a, 'b, T>)
+        ensures
+            azip_remaining(&r).len() == (if aim_remaining(&self).len() <= U::USIZE { aim_remaining(&self).len() } else { U::USIZE as nat }),
+            forall |i: int| #![trigger azip_remaining(&r)[i]] #![trigger aim_remaining(&self)[i]] 0 <= i < azip_remaining(&r).len() ==> {
+                &&& *azip_remaining(&r)[i].0 == *aim_remaining(&self)[i]
+                &&& mut_ref_future(azip_remaining(&r)[i].0) == mut_ref_future(aim_remaining(&self)[i])
+                &&& *azip_remaining(&r)[i].1 == other@[i]
+            },
+    { unimplemented!() }
+}
+
 pub open spec fn xor_seq(a: Seq<u8>, b: Seq<u8>) -> Seq<u8> {
     Seq::new(a.len(), |i: int| a[i] ^ b[i])
 }
